@@ -34,7 +34,7 @@ ASSUMPTIONS = [
     'the failure cases cover ephemeral services (ADD_ONION); filesystem services are covered by the option table only',
 ]
 BOUNDS = {'quick': {'options': 'ephemeral {None,T,F} x hidden_service_dir x auth {none,basic,stealth} x stealth_auth x private_key x single_hop x version',
-                    'fault_steps': 7, 'descriptor_wait': 'with / without a second service publishing to another directory meanwhile', 'public_port': 'symbolic 1..65535'},
+                    'fault_steps': 9, 'descriptor_wait': 'with / without a second service publishing to another directory meanwhile', 'public_port': 'symbolic 1..65535'},
           'thorough': {}}
 OUTSIDE = ['real sockets / file systems', 'filesystem-service listen() (needs hostname files on disk)', 'TCPHiddenServiceEndpointParser private-key files']
 
@@ -88,7 +88,8 @@ def setup(mode):
 
 def _listen(version, use_auth, single_hop, with_key, public_port, fault, with_local_port=False, retry=False, foreign=False):
     """fault: 0 none, 1 config Deferred fails, 2 config is not a TorConfig, 3 local bind fails, 4 ADD_ONION rejected,
-    5 every upload FAILED, 6 connection lost before the ADD_ONION reply"""
+    5 every upload FAILED, 6 connection lost before the ADD_ONION reply, 7 key blob with a line break, 8 version 3 with an RSA key
+    (7 and 8: service creation refuses with a ValueError once the local listener is bound)"""
     p, t, tor = make_world(dict(INITIAL), True, {})
     p._set_valid_events('CONF_CHANGED HS_DESC CIRC STREAM')
     cfg, out = bootstrap(p, tor)
@@ -119,9 +120,13 @@ def _listen(version, use_auth, single_hop, with_key, public_port, fault, with_lo
         config = object()
     else:
         config = cfg
+    pkey = ('ED25519-V3:c2VjcmV0' if version == 3 else 'RSA1024:c2VjcmV0') if with_key else None
+    if fault == 7:
+        pkey = pkey.replace(':c2Vj', ':c2Vj\n')       # a key blob with a line break: refused when the command is built, after the bind
+    if fault == 8:
+        pkey = 'RSA1024:c2VjcmV0'                      # (version 3) a key of the other kind: likewise
     try:
-        ep = TCPHiddenServiceEndpoint(reactor, config, public_port, ephemeral=True,
-                                      private_key=('ED25519-V3:c2VjcmV0' if version == 3 else 'RSA1024:c2VjcmV0') if with_key else None,
+        ep = TCPHiddenServiceEndpoint(reactor, config, public_port, ephemeral=True, private_key=pkey,
                                       version=version, single_hop=single_hop, auth=None, local_port=8080 if with_local_port else None)
         o = fakes.Outcome(ep.listen(Factory()))
         tor.pump()
@@ -136,6 +141,8 @@ def _listen(version, use_auth, single_hop, with_key, public_port, fault, with_lo
                 return R('local-listener-not-on-loopback', '%r', fp.interface)
         if len(reactor.ports) > 1:
             return R('more-than-one-local-listener')
+        if fault in (7, 8) and adds:
+            return R('ADD_ONION-sent-with-an-unusable-key', '%r', adds)
         if fault in (0, 5):
             if len(adds) != 1:
                 return R('not-exactly-one-ADD_ONION', '%r', adds)
@@ -198,7 +205,7 @@ def _listen(version, use_auth, single_hop, with_key, public_port, fault, with_lo
     return ''
 
 
-@cond(quick=dict(parts=[{'fault': f} for f in range(7)], budget=100))
+@cond(quick=dict(parts=[{'fault': f} for f in range(9)], budget=100))
 def c17_listen(fault: int, version: int, single_hop: bool, with_key: bool, public_port: int, with_local_port: bool, retry: bool, foreign: bool) -> str:
     """ephemeral endpoint, failure injected at step `fault`; version / single-hop / key / public port / caller-supplied
     local_port / a retry of listen() after the failure chosen by the solver"""
@@ -208,6 +215,10 @@ def c17_listen(fault: int, version: int, single_hop: bool, with_key: bool, publi
         assume(not retry)
     if fault not in (0, 5):
         assume(not foreign)
+    if fault == 7:
+        assume(with_key)
+    if fault == 8:
+        assume(with_key and version == 3)
     with api.no_tracing():
         return _listen(version, False, True if single_hop else False, True if with_key else False, public_port, fault,
                        True if with_local_port else False, True if retry else False, True if foreign else False)
